@@ -171,7 +171,7 @@ class FoldRegistry:
         body = z3.If(N <= 0, neutral, combine(prev, cur))
         z3.RecAddDefinition(decl, params + [N], body)
         self.by_key[key] = decl
-        self.defs.append((decl, key, kind, params, norm))
+        self.defs.append((decl, key, kind, params, norm, neutral, combine))
         return decl, subs
 
     def is_fold(self, decl):
